@@ -156,6 +156,27 @@ func (c *canon) ty(t *XTy, embedded bool) string {
 				for _, f := range sortedFields(t.Fields) {
 					d += " " + f.Name + ":" + c.ty(f.T, embedded)
 				}
+			} else {
+				// a CCF type definition of an interface carries no fields: they are not part of the
+				// definition, but a composite type whose first occurrence (full node) is inside them
+				// still has to be collected (later occurrences are back references)
+				for _, f := range t.Fields {
+					c.ty(f.T, embedded)
+				}
+				for _, in := range t.Inits {
+					for _, p := range in {
+						c.ty(p.T, embedded)
+					}
+				}
+			}
+			if !embedded {
+				// same for what the definition does not carry: raw/base type and initializers
+				c.ty(t.A, embedded)
+				for _, in := range t.Inits {
+					for _, p := range in {
+						c.ty(p.T, embedded)
+					}
+				}
 			}
 			defs[t.Name] = d
 		}
